@@ -398,8 +398,13 @@ def build(S, log, hooks=None):
     if S.get("disc") or (hooks is not None and getattr(hooks, "wrap_fifo", False)):
         names = S.get("disc") or ["FIFO"] * n
 
+        def linger(individuals, t):
+            # a custom discipline (documented signature): nobody starts unless at least two customers are waiting —
+            # customers may linger beside a free server, which the built-in disciplines never allow
+            return individuals[0] if len(individuals) >= 2 else None
+
         def mkd(node_id, name):
-            real = getattr(ciw.disciplines, name)
+            real = linger if name == "LINGER" else getattr(ciw.disciplines, name)
 
             def disc(individuals, t):
                 chosen = real(individuals, t)
